@@ -470,6 +470,11 @@ Definition proc_out (g : gstate) (i : nat) (o : obs nat) : bool :=
             rng.shuffle(sched)
             cases.append({"threads": nthreads, "payloads": payloads, "schedule": sched, "initial": rng.choice([None, None, None, "old"]),
                           "deia": rng.random() < 0.2})
+        # directed schedules: one loader gets ahead by k steps, the other catches up j steps, then both finish
+        for pay in (["good", "corrupt"], ["corrupt", "good"]):
+            for k_ in range(1, 7):
+                for j_ in range(1, 7):
+                    cases.append({"threads": 2, "payloads": pay, "schedule": [0] * k_ + [1] * j_ + [0] * (6 - k_) + [1] * (6 - j_), "initial": None, "deia": False})
         if tier != "quick":
             # exhaustively all interleavings of two loaders at step-boundary granularity (6 releases each: C(12,6) = 924)
             import itertools
